@@ -354,3 +354,75 @@ func (h H) gateSnap(rule, construct string, target ssa.Instruction, lhs, op, pre
 	}
 	return h.gateAny(rule, construct, target, atoms...)
 }
+
+// expandLocals rewrites "local:name" in a canonical form to the canonical form
+// of the one value ever stored into that local of fn (a value copy such as
+// `latest := l.configs.Latest`). Used by rules that ask where a value was
+// derived from; rules about freshness keep the unexpanded form.
+func (h H) expandLocals(fn *ssa.Function, s string) string {
+	fi := h.P.Info(fn)
+	for i := 0; i < 3 && strings.Contains(s, "local:"); i++ {
+		changed := false
+		for _, b := range fn.Blocks {
+			for _, in := range b.Instrs {
+				al, ok := in.(*ssa.Alloc)
+				if !ok {
+					continue
+				}
+				name := fi.Sym(al).String()
+				if !strings.HasPrefix(name, "local:") || !strings.Contains(s, name) {
+					continue
+				}
+				var stores []*ssa.Store
+				other := false
+				for _, r := range *al.Referrers() {
+					switch u := r.(type) {
+					case *ssa.Store:
+						if u.Addr == ssa.Value(al) {
+							stores = append(stores, u)
+						} else {
+							other = true // address stored somewhere
+						}
+					case *ssa.FieldAddr:
+						for _, rr := range *u.Referrers() {
+							if st, isSt := rr.(*ssa.Store); isSt && st.Addr == ssa.Value(u) {
+								other = true // field written
+							}
+						}
+					}
+				}
+				if len(stores) != 1 || other {
+					continue
+				}
+				val := fi.Sym(stores[0].Val).String()
+				if strings.Contains(val, name) {
+					continue
+				}
+				// replace whole-token occurrences
+				var out strings.Builder
+				for j := 0; j < len(s); {
+					if strings.HasPrefix(s[j:], name) {
+						end := j + len(name)
+						if end == len(s) || !isIdentChar(s[end]) {
+							out.WriteString(val)
+							j = end
+							changed = true
+							continue
+						}
+					}
+					out.WriteByte(s[j])
+					j++
+				}
+				s = out.String()
+			}
+		}
+		if !changed {
+			break
+		}
+	}
+	return s
+}
+
+func isIdentChar(c byte) bool {
+	return c == '_' || c >= '0' && c <= '9' || c >= 'a' && c <= 'z' || c >= 'A' && c <= 'Z'
+}
